@@ -25,7 +25,7 @@
      result: (0 ...) loaded, (1) error, (9) not applicable *)
 From Coq Require Import List NArith ZArith Bool Arith.
 Import ListNotations.
-From Stam Require Import Base.Sx Model.Loader Spec.LoaderSpec Proofs.Loader.
+From Stam Require Import Base.Sx Model.Loader Spec.LoaderSpec.
 Local Open Scope N_scope.
 
 Definition str_of (x : sx) : str := map sx_N (sx_list x).
